@@ -5,3 +5,4 @@ cd /repo && git apply $PATCH || { echo "PATCH-DOES-NOT-APPLY"; exit 3; }
 export VERIF_EVIDENCE_DIR=/verif/.work/seed_evidence
 for p in "$@"; do ( cd /verif && bin/check $p --no-canary 2>&1 | grep -v "^$" | tail -6; echo "   -> exit=${PIPESTATUS[0]}" ); done
 cd /repo && git checkout -q -- . && git clean -fdq src
+( cd /verif && bin/setup >/dev/null 2>&1 )   # rebuild the replay binary from the restored tree
